@@ -298,7 +298,13 @@ func genC29(rng *rand.Rand) c29Case {
 					}
 				}
 			default:
-				st = append(st, SOp{Kind: "getattr", Dir: p})
+				if rng.Intn(2) == 0 {
+					// SETATTR on the *shared* directory (its mode, unchanged): takes the directory node's write lock while
+					// other streams look names up in it
+					st = append(st, SOp{Kind: "setattr", Dir: dir, Sa: Sattr{Mode: p32(0o755)}})
+				} else {
+					st = append(st, SOp{Kind: "getattr", Dir: p})
+				}
 			}
 		}
 		c.Streams = append(c.Streams, st)
@@ -311,7 +317,7 @@ func checkC29(r *Result, rng *rand.Rand, thorough bool) {
 	if thorough {
 		ncases, reps = 400, 6
 	}
-	r.Rule = "2-4 concurrent request streams (CREATE/MKDIR/WRITE/READ/LOOKUP/REMOVE/RMDIR/RENAME/GETATTR on stream-private names in two shared directories, through the real HandleCall), random yields and delays inside every backend call, several schedules per case; minimal-TTL runs compared reply by reply with each stream's solo run (= every serial order) and final tree with the union; runs with caches enabled checked for crashes, final tree and post-run agreement of handle table and caches with the backend; thorough tier under the race detector; plus a storm of 8 simultaneous LOOKUPs of one not-yet-handled name (1500 / 12000 fresh names): one handle value for all, one live handle per path"
+	r.Rule = "2-4 concurrent request streams (CREATE/MKDIR/WRITE/READ/LOOKUP/REMOVE/RMDIR/RENAME/GETATTR on stream-private names in two shared directories, and SETATTR of the shared directories themselves, through the real HandleCall), random yields and delays inside every backend call, several schedules per case; minimal-TTL runs compared reply by reply with each stream's solo run (= every serial order) and final tree with the union; runs with caches enabled checked for crashes, final tree and post-run agreement of handle table and caches with the backend; thorough tier under the race detector; plus a storm of 8 simultaneous LOOKUPs of one not-yet-handled name (1500 / 12000 fresh names): one handle value for all, one live handle per path"
 	for i := 0; i < ncases; i++ {
 		c := genC29(rng)
 		r.noteCase(fmt.Sprint(c.strings()), true)
@@ -319,6 +325,15 @@ func checkC29(r *Result, rng *rand.Rand, thorough bool) {
 		for k := 0; k < reps; k++ {
 			vs := judgeC29(c, int64(i*100+k))
 			r.Compared++
+			for _, v := range vs {
+				if v.Class == "deadlock" {
+					// the stuck goroutines keep their locks: nothing further on this process is meaningful
+					v.Ops, v.Case = c.strings(), c
+					r.violate(v)
+					r.Notes = append(r.Notes, "stopped at the first deadlock")
+					return
+				}
+			}
 			for _, v := range vs {
 				dup := false
 				for _, ex := range r.Violations {
